@@ -5,6 +5,7 @@ from fractions import Fraction
 
 import core
 import corecheck
+import renderoracle
 import gen
 
 TOL = Fraction(1, 10 ** 9)
@@ -144,9 +145,15 @@ def run(res, ctx):
                                    terminating_only=(rng.random() < 0.6))
             cases.append({"rows": rows, "inits": {}})
         done += len(cases)
-        for r in corecheck.run_cases(ctx, cases, want_exact=True):
+        for r in corecheck.run_cases(ctx, cases, want_exact=True, render=True):
             st["evaluations"] += 1
             i = r["impl"]
+            # the superficial-loss annotation of the report (amount, ratio, forced / over-applied markers)
+            rstat, probs = renderoracle.check_run(r, groups=("sfl",))
+            st["report-" + rstat] += 1
+            if probs and rstat == "ok":
+                res.violation("failing-input", "the report's superficial-loss annotation does not match the ledger: " + probs[0][1],
+                              {"input": r["hc"], "problems": [m_ for _, m_ in probs[:5]]})
             d = core.diff_exact(r["dec"], i)
             if d is not None:
                 corr.append((r, d))
@@ -212,7 +219,8 @@ def supplied_variants(res, ctx, st, rng, n):
                 cands = [(comp, False, "accept"), (comp + Fraction(1, 2000), False, "accept" if comp + Fraction(1, 2000) <= 0 else None),
                          (comp + Fraction(1, 500), False, "reject" if comp + Fraction(1, 500) <= 0 else None),
                          (Fraction(0), False, "reject" if abs(comp) > Fraction(1, 1000) else "accept"),
-                         (Fraction(0), True, "accept"), (comp * 2, True, "accept")]
+                         (Fraction(0), True, "accept"), (comp * 2, True, "accept"),
+                         (comp + Fraction(1, 1000), False, "accept"), (comp - Fraction(1, 1000), False, "accept")]
                 sv, force, exp = rng.choice(cands)
                 if exp is None:
                     continue
